@@ -567,6 +567,95 @@ def classify_run(ln, out):
 
 
 # ------------------------------------------------------------------------------------------------
+# `morx-run-feat-extreme` (added after the seeded change C01f): cluster values and feature ranges at the edges of u32, glyphs that
+# sit exactly on a range's cluster_first / cluster_last, on fonts whose OpenType tags really switch state-table subtables
+
+
+def extreme_run_lines(shim, r, n, per_font=8):
+    """`morx run` on (a) the directed morx+feat fonts of C15.aat_font (every tag owns a flag bit; non-contextual, contextual,
+    ligature, rearrangement subtables keyed to the bits) and (b) the random morx+feat fonts of font_case; glyph strings whose
+    clusters come from C01.extreme_clusters (u32 extremes: all equal, ascending to / from an extreme, descending, replaced,
+    random, sorted) or are ordinary ascending ones; 1-4 user features whose bounds are u32 extremes, cluster values and cluster
+    values +-1 (C01.extreme_feats: global, start == end, start > end, end == start + 1, [0, x), [x, MAX], overlapping)"""
+    import C01, C15
+    fm = C15.featmap(shim)
+    lines = []
+    while len(lines) < n:
+        if r.chance(3, 4):
+            hexf, tags, _ = C15.aat_font(r, fm)
+            rec = C15.aat_font.recipe
+        else:
+            hexf, rec, _ = font_case(r, (0, 1, 2, 4), True, wf=True)
+            tags = USER_TAGS
+        for _ in range(per_font):
+            k = r.range(1, 9)
+            if r.chance(2, 3):
+                _, cl = C01.extreme_clusters(r, k)
+            else:
+                c, cl = r.below(4), []
+                for _ in range(k):
+                    cl.append(c); c += r.choice([0, 1, 1, 2, 3])
+            gs = ",".join(f"{1 + r.below(NG - 1)}:{c}" for c in cl)
+            fs, _ = C01.extreme_feats(r, tags, cl)
+            lines.append(f"morx run {hexf} R {rec} I {r.choice(['l', 'r', 't', 'b'])} {r.below(3)} - - {fs} {gs}")
+    return lines[:n]
+
+
+def extreme_search(ctx, shim, lines):
+    """oracle on the crate alone: on these well-formed morx+feat fonts hb_aat_layout_substitute returns (no index past the range list
+    or the buffer) whatever the cluster values and the feature ranges are; the compiled ranges in the reply tile [0, u32::MAX]"""
+    outs = vlib.run_lines(shim, lines, timeout=300)
+    sites, nontriv, badtile = {}, 0, None
+    for ln, o in zip(lines, outs):
+        if not o.startswith("ok"):
+            k = panic_site(o) if o.startswith("panic") else o[:30]
+            if k not in sites or len(ln) < len(sites[k][0]): sites[k] = (ln, o, sites.get(k, (0, 0, 0))[2] + 1)
+            else: sites[k] = (sites[k][0], sites[k][1], sites[k][2] + 1)
+            continue
+        t = o.split()
+        if "F" not in t: continue
+        for ch in t[t.index("F") + 1].split(";"):
+            rs = [tuple(int(v) for v in x.split("/")) for x in ch.split(",") if x.count("/") == 2]
+            if len(rs) > 1: nontriv += 1
+            ok = bool(rs) and rs[0][1] == 0 and rs[-1][2] == 0xFFFFFFFF and all(a <= b for _, a, b in rs) and \
+                all(n[1] == p[2] + 1 for p, n in zip(rs, rs[1:]))
+            if rs and not ok and (badtile is None or len(ln) < len(badtile[0])): badtile = (ln, o)
+    for k, (ln, o, n) in sorted(sites.items()):
+        ctx.violation(f"hb_aat_layout_substitute does not return on a well-formed morx+feat font ({n} requests): {o[:160]} — "
+                      f"I {ln.split(' I ', 1)[1]}",
+                      {"stage": "search", "stream": "morx-extreme", "request": ln, "observed": o[:300], "site": k})
+    if badtile:
+        ctx.violation(f"the compiled feature ranges of a chain do not tile [0, u32::MAX]: {badtile[1].split(' F ')[1][:200]} — "
+                      f"I {badtile[0].split(' I ', 1)[1]}",
+                      {"stage": "search", "stream": "morx-extreme", "request": badtile[0], "observed": badtile[1][:400]})
+    ctx.note_search("morx-extreme", len(lines), nontriv,
+                    rule="the requests of morx-run-feat-extreme on the crate alone: no panic; every chain's compiled ranges start at 0, "
+                         "end at u32::MAX, are non-empty and contiguous (the hypothesis `Tiles` of C17_range_walk_inclusive); "
+                         "non-trivial = chains with more than one range")
+
+
+def classify_extreme(ln, out):
+    ks = classify_run(ln, out)
+    t = ln.split()
+    i = t.index("I")
+    cls = [] if t[i + 6] == "-" else [int(x.split(":")[1]) for x in t[i + 6].split(",")]
+    if 0xFFFFFFFF in cls: ks.append("cluster:u32max")
+    if any(c >= 0x80000000 for c in cls): ks.append("cluster:>=2^31")
+    if out.startswith("ok"):
+        o = out.split()
+        if "F" in o:
+            on_last = on_first = False
+            for ch in o[o.index("F") + 1].split(";"):
+                rs = [tuple(int(v) for v in x.split("/")) for x in ch.split(",") if x.count("/") == 2]
+                for (fl, a, b), nxt in zip(rs, rs[1:]):
+                    if b in cls and fl != nxt[0]: on_last = True
+                    if nxt[1] in cls and fl != nxt[0]: on_first = True
+            if on_last: ks.append("glyph-on-cluster_last-of-a-range-whose-successor-differs")
+            if on_first: ks.append("glyph-on-cluster_first-of-a-range-whose-predecessor-differs")
+    return ks
+
+
+# ------------------------------------------------------------------------------------------------
 # hook-level rearrangement: all 16 verbs x all marked ranges in buffers of <= 10 glyphs (exhaustive)
 
 def rearr_lines(maxlen, extra_flags=(0,)):
@@ -1963,6 +2052,8 @@ def run(ctx):
                    canon=canon, timeout=300)
     ctx.correspond("morx-run-feat", lines=run_lines(ctx.rng("runfeat"), ctx.budget(1200, 60000), kinds=(0, 1, 2, 4),
                    with_feat=True), classify=classify_run, canon=canon, timeout=300)
+    xl = extreme_run_lines(shim, ctx.rng("runfeat-extreme"), ctx.budget(2400, 80000))
+    ctx.correspond("morx-run-feat-extreme", lines=xl, classify=classify_extreme, canon=canon, timeout=300)
     # 2b. ligature subtables whose component stack grows past the 64 positions the ring remembers
     lsc = longstack_cases(ctx.rng("longstack"), ctx.budget(60, 2500))
     ctx.correspond("morx-run-longstack", lines=[c[0] for c in lsc], classify=classify_longstack, canon=canon, timeout=300)
@@ -1982,6 +2073,7 @@ def run(ctx):
     ctx.correspond("morx-run-offrange", lines=offrange_run_lines(ctx.rng("run-offrange"), ctx.budget(1500, 60000), offc),
                    classify=classify_offrange, canon=canon, timeout=300)
     # search
+    extreme_search(ctx, shim, xl)
     offrange_search(ctx, shim, offc)
     purge_search(ctx, shim, pl)
     env_search(ctx, shim, envc)
@@ -2011,6 +2103,10 @@ def replay(ctx, rp):
         print("crate:", a[:300]); print("spec :", b[:300])
         ok = a.startswith("ok") and (b == "undef" or gids_of(a.split()[3]) == gids_of(b.split()[1]))
         return 0 if ok else 1
+    if st == "morx-extreme":
+        a = vlib.run_lines(shim, [rp["request"]], nproc=1)[0]
+        print("request: morx run <font> … I", rp["request"].split(" I ", 1)[1]); print("crate:", a[:300])
+        return 0 if a.startswith("ok") else 1
     if st == "morx-seeds":
         model = vlib.build_model()
         a = vlib.run_lines(shim, [rp["request"]], nproc=1)[0]
